@@ -139,7 +139,7 @@ def eval_mismatches(suite, pairs, shard=250, timeout=600, jobs=16):
             body = HEADER.format(imports=suite.imports, prelude=suite.prelude)
             body += f'Definition cases : list ({suite.in_type} * {suite.out_type}) := [\n'
             body += ';\n'.join(f'({i}, {o})' for i, o in chunk)
-            body += f'\n].\nEval vm_compute in (mismatches {suite.eq_dec} {suite.model} cases).\n'
+            body += f'\n].\nEval vm_compute in (mismatches {suite.eqb or '(dec_eqb ' + suite.eq_dec + ')'} {suite.model} cases).\n'
             f.write_text(body)
             files.append((k, f))
         mism, errors = [], []
